@@ -93,6 +93,10 @@ def stepFrames (inputs : List ContractId) (frames : List ContractId) : Event →
   | .ret => frames.tail
   | .other => frames
 
+/-- `init_inner` for the set the verifier consults (`self.input_contracts`): ASSIGNED from the new transaction's contract
+inputs — whatever an earlier transaction on the same instance had listed is gone (Gen.inputContractsInit pins the text) -/
+def initInputContracts (_previous : List ContractId) (txInputs : List ContractId) : List ContractId := txInputs
+
 /-- opcodes that touch only the state of the contract whose frame is active -/
 def currentOnlyOpcodes : List String :=
   ["BURN", "MINT", "SCWQ", "SRW", "SRWQ", "SWW", "SWWQ", "TRO", "SMO", "SCLR", "SRDD", "SRDI", "SWRD", "SWRI", "SUPD", "SUPI", "SPLD"]
